@@ -268,5 +268,47 @@ func main() {
 			}
 			e.Strs("activeFacts", facts, "active fraction: window clamp, inverseLIDs filter, Revert in GetMID/GetRID")
 		}
-	}, "frac/processor/search.go", "frac/processor/eval_tree.go", "frac/processor/search_params.go", "node/node_not.go", "node/builder.go", "node/less_fn.go", "frac/active_index.go")
+		// ---- inverser: the pooled LID -> position table is zeroed before it is filled
+		if fi, err := r.Load("frac/inverser.go"); err != nil {
+			e.Missing("inverserFacts", err)
+		} else {
+			var facts []string
+			if fd := fi.Func("", "getSlice"); fd != nil {
+				for _, c := range fi.Calls(fd.Body) {
+					if c == "clear" || strings.HasPrefix(c, "bytespool.") {
+						facts = append(facts, "getSlice: "+c)
+					}
+				}
+			}
+			if fd := fi.Func("", "newInverser"); fd != nil {
+				ast.Inspect(fd.Body, func(n ast.Node) bool {
+					switch x := n.(type) {
+					case *ast.AssignStmt:
+						if len(x.Lhs) >= 1 && (fi.Render(x.Lhs[0]) == "inversion[v]" || strings.Contains(fi.Render(x.Rhs[0]), "getSlice")) {
+							facts = append(facts, "newInverser: "+fi.Render(x))
+						}
+					case *ast.RangeStmt:
+						facts = append(facts, "newInverser: range "+fi.Render(x.X))
+					}
+					return true
+				})
+			}
+			if fd := fi.Func("inverser", "Inverse"); fd != nil {
+				ast.Inspect(fd.Body, func(n ast.Node) bool {
+					switch x := n.(type) {
+					case *ast.IfStmt:
+						facts = append(facts, "Inverse: if "+fi.Render(x.Cond))
+					case *ast.ReturnStmt:
+						var rs []string
+						for _, res := range x.Results {
+							rs = append(rs, fi.Render(res))
+						}
+						facts = append(facts, "Inverse: return "+strings.Join(rs, ", "))
+					}
+					return true
+				})
+			}
+			e.Strs("inverserFacts", facts, "inverser: getSlice takes the table from the pool and clears it; newInverser fills it; Inverse reads it")
+		}
+	}, "frac/inverser.go", "frac/processor/search.go", "frac/processor/eval_tree.go", "frac/processor/search_params.go", "node/node_not.go", "node/builder.go", "node/less_fn.go", "frac/active_index.go")
 }
